@@ -22,11 +22,15 @@ func init() {
 		Technique: "must-held lock analysis, critical-region rule (no Unlock between two events), must-precede ordering, assumption pruning, caller-holds summaries for lock-protected helpers",
 		Trusted:   "go/types+go/ssa; sync.Mutex and sync/atomic semantics; Go memory model for channel close",
 		Run:       runC12,
+		Imports: []Import{
+			{From: "C04.c", Match: "advance-publishes", As: "C12.e", Why: "a reader that parked just before the head moved is woken by the publication of the new height (SetHeight walks the heights in between and releases their waiters); bumping the height without that walk leaves it parked although Height() has reached its height"},
+		},
 	})
 }
 
 func runC12(c *an.Ctx) {
 	p := c.P
+	checkWaiterCounted(c, "C12.b")
 	gbh := p.Method("store", "Store", "GetByHeight")
 	lookup := p.Method("store", "Store", "getByHeight")
 	wait := p.Method("store", "heightSub", "Wait")
@@ -432,6 +436,36 @@ func runC12(c *an.Ctx) {
 			okO = okO && okArgs
 		}
 		c.Check(okO, "C12.d", "append-notify-advance", "new headers are added to the readable pending batch, then their heights are notified, then the head is advanced (unconditionally, in that order)", flush, nil, "", nil)
+		// nothing in the step publishes a height (heightSub.Init / SetHeight / Notify, directly or through
+		// a helper such as ensureInit) before the batch is readable
+		if app != nil {
+			publishes := map[string]bool{"store.(*heightSub).Init": true, "store.(*heightSub).SetHeight": true, "store.(*heightSub).Notify": true}
+			fl := an.Flow{Fn: flush}
+			nPub := 0
+			an.Instrs(flush, func(in ssa.Instruction) {
+				call, isCall := in.(*ssa.Call)
+				if !isCall || call == app {
+					return
+				}
+				cal := an.StaticCallee(&call.Call)
+				if cal == nil {
+					return
+				}
+				reaches := ""
+				for _, r := range reachableIn(c, []*ssa.Function{cal}, true) {
+					if publishes[an.FuncName(r)] {
+						reaches = an.FuncName(r)
+					}
+				}
+				if reaches == "" {
+					return
+				}
+				nPub++
+				c.Check(fl.MustPrecede(func(x ssa.Instruction) bool { return x == ssa.Instruction(app) }, call), "C12.d", "publication-after-readable:"+an.FuncName(cal),
+					"a step that publishes a height (here through "+reaches+") runs only after the batch was added to the readable pending batch", flush, call, "", nil)
+			})
+			c.Min("C12.d", "publishing steps of the write loop", nPub, 2)
+		}
 		// getHeights yields the height of every header
 		if gh := p.Func("store", "getHeights"); gh != nil {
 			gt := c.T(gh)
